@@ -382,6 +382,31 @@ func (w *Worker) Case(name string, params any, body func(c *Case)) {
 					}
 				}
 			}
+			if len(viol) == 0 {
+				// a goroutine that keeps the CPU inside the library, in the same function, with no event recorded by the
+				// harness in between: a busy loop (the timer only chose when to look)
+				sp1 := SpinnersInDump(buf)
+				if len(sp1) != 0 {
+					c.mu.Lock()
+					ev1 := c.nevents
+					c.mu.Unlock()
+					time.Sleep(500 * time.Millisecond)
+					buf2 := make([]byte, 1<<20)
+					buf2 = buf2[:runtime.Stack(buf2, true)]
+					sp2 := SpinnersInDump(buf2)
+					c.mu.Lock()
+					ev2 := c.nevents
+					c.mu.Unlock()
+					for id, fn := range sp1 {
+						if _, again := sp2[id]; again && ev1 == ev2 {
+							viol = append(viol, Violation{Kind: "hang", Sig: "library-busy-loop", Detail: "long after the case should have finished a goroutine is still running inside " + fn + " (same goroutine, same function in two dumps half a second apart, no event recorded in between): it loops without making progress"})
+							w.emit(map[string]any{"type": "violation", "case": idx, "name": name, "params": params, "violations": viol, "events": tail(c.Events(), 400)})
+							viol = nil
+							break
+						}
+					}
+				}
+			}
 			if len(viol) != 0 {
 				// the case recorded a violation and then got stuck (e.g. a panic left a library mutex locked)
 				viol = append(viol, Violation{Kind: "hang", Sig: "stuck-after-violation", Detail: "the case did not finish after the violation above (watchdog)"})
